@@ -1148,8 +1148,9 @@ fn run_comp(tier: Tier, sr: u32, threshold: f64, ctx: &mut Ctx) {
 		run_comp_deep(sr, ctx);
 	}
 	let ratios: &[f64] = tier.pick(&[0.5, 1.0, 2.0, 4.0, 100.0], &[0.5, 1.0, 1.5, 2.0, 4.0, 10.0, 100.0]);
-	let attacks: &[f64] = tier.pick(&[0.001, 0.01], &[0.001, 0.01, 0.05]);
-	let releases: &[f64] = tier.pick(&[0.01, 0.1], &[0.005, 0.01, 0.1]);
+	// (incl. time constants that are no whole number of milliseconds, and one below a millisecond)
+	let attacks: &[f64] = tier.pick(&[0.001, 0.01, 0.0004, 0.00275], &[0.001, 0.01, 0.05, 0.0004, 0.00275]);
+	let releases: &[f64] = tier.pick(&[0.01, 0.1, 0.0125], &[0.005, 0.01, 0.1, 0.0125, 0.0007]);
 	let overs: &[f64] = tier.pick(&[6.0, 20.0], &[1.0, 6.0, 20.0, 40.0]);
 	let srf = sr as f64;
 	for &ratio in ratios {
